@@ -41,6 +41,12 @@ def family(name, orient):
     if name == "power":
         sp = lambda z: 2.2 * z**0.25  # noqa
         return (lambda z: cu * sp(z), lambda z: cv * sp(z), lambda z: 0.3 * z**0.8 + 0.1, lambda z: 0.2 * z + 0.05, lambda z: 0.15 * z**0.9)
+    if name == "smoothwall":
+        # aerodynamically smooth surface (calm water, ice): z0 = 1e-5 m, Kz = kappa u* z is ~1e-6 m2/s in the lowest layers
+        us, z0 = 0.2, 1e-5
+        sp = lambda z: us / 0.4 * np.log(z / (0.5 * z0))  # noqa
+        K = lambda z: 0.4 * us * z  # noqa
+        return (lambda z: cu * sp(z), lambda z: cv * sp(z), K, K, K)
     if name == "const":
         c = lambda val: (lambda z: val + 0.0 * np.asarray(z))  # noqa
         return (c(2.3 * cu), c(2.3 * cv), c(1.7), c(0.6), c(0.9))
@@ -68,6 +74,9 @@ def cases(tier):
         if fam == "const" and (zg == "geom" or o != "oblique"):
             continue
         yield {"kind": "func", "family": fam, "zgrid": zg, "dom": dom, "grid": g, "orient": o, "ns": ns}
+    # smooth wall: output AT the surface node, inside the viscous-scale sub-layer and aloft
+    for dom, g in itertools.product(doms, grids):
+        yield {"kind": "func", "family": "smoothwall", "zgrid": "geom", "dom": dom, "grid": g, "orient": "oblique", "ns": (64, 256, 1024), "z0": 1e-5, "lvfrac": [0.0, 0.125, 0.5]}
     nsm = (8, 32, 128, 512)
     winds = ((3.0, 1.0),) if tier == "quick" else ((3.0, 1.0), (0.0, -3.2), (-2.0, 2.0))
     for clo, L, dom, g, w in itertools.product(("MOST", "MOSTM"), (-50.0, 1e9, 80.0), doms, grids, winds):
@@ -93,10 +102,10 @@ def case_ladder(case):
     for n in case["ns"]:
         if case["kind"] == "func":
             funcs = family(case["family"], case["orient"])
-            z0, zt = 0.5, 20.0
+            z0, zt = case.get("z0", 0.5), 20.0
             z = np.linspace(z0, zt, n + 1) if case["zgrid"] == "uniform" else z0 * (zt / z0) ** np.linspace(0, 1, n + 1)
             prof = tuple(np.asarray(f(z), dtype=float) + 0.0 * z for f in funcs)
-            lv = [n // 2, n]
+            lv = [int(round(fr * n)) for fr in case["lvfrac"]] if "lvfrac" in case else [n // 2, n]
         else:
             from bldfm.pbl_model import vertical_profiles
 
@@ -196,15 +205,22 @@ def case_field_ladder(case):
             errs[repr(h)].append(_field_error(case, h, nlay))
     v = []
     lab = core.canon(case)
+    refused = [h for h in case["halos"] if any(x is None for x in errs[repr(h)])]
+    if refused and not case.get("may_refuse"):
+        raise ValueError("solver refused a request of the even lattice: halos %r; case %s" % (refused, lab))
+    if len(refused) == len(case["halos"]):
+        return {"v": [], "nt": False, "n": len(case["ns"]) * len(case["halos"]), "obs": {"refused": [repr(h) for h in refused]}}
     for h in case["halos"]:
         e = errs[repr(h)]
+        if h in refused:
+            continue
         for k, nlay in enumerate(case["ns"]):
             hk = 1.0 / nlay
             if not e[k] <= 16.0 * hk:
                 v.append({"sub": "field-bound", "sig": "field-bound", "msg": "halo %r, n=%d: field error %.3e is %.1f x the relative layer thickness (allowed 16 x); case %s" % (h, nlay, e[k], e[k] / hk, lab)})
             if k + 1 < len(e) and e[k + 1] > max(e[k] / 2.5, 0.05 / case["ns"][k + 1]) and e[k + 1] >= 1e-9:
                 v.append({"sub": "field-ratio", "sig": "field-ratio", "msg": "halo %r, n=%d -> %d: field error %.3e -> %.3e shrinks only %.2f x (required 2.5 x); case %s" % (h, nlay, case["ns"][k + 1], e[k], e[k + 1], e[k] / e[k + 1], lab)})
-    return {"v": v[:4], "nt": True, "n": len(case["ns"]) * len(case["halos"]), "obs": {"errors_by_halo": {k: ["%.3e" % x for x in val] for k, val in errs.items()}}}
+    return {"v": v[:4], "nt": True, "n": len(case["ns"]) * len(case["halos"]), "obs": {"errors_by_halo": {k: [("refused" if x is None else "%.3e" % x) for x in val] for k, val in errs.items()}}}
 
 
 def _field_error(case, halo, n):
@@ -215,7 +231,8 @@ def _field_error(case, halo, n):
     from bldfm import config as rt
 
     S0 = sl.solver()
-    nx, ny, dom = 8, 6, (200.0, 150.0)
+    nx, ny = case.get("grid", (8, 6))
+    dom = (25.0 * nx, 25.0 * ny)
     dx, dy = dom[0] / nx, dom[1] / ny
     funcs = family(case["family"], "oblique")
     z0, zt = 0.5, 20.0
@@ -234,6 +251,10 @@ def _field_error(case, halo, n):
     try:
         rt.NUM_THREADS = case.get("threads", 1)
         _, c, f = S0(q, z, prof, dom, lv, modes=modes, halo=halo, precision="double", footprint=fp, meas_pt=mp)
+    except ValueError:
+        if case.get("may_refuse"):
+            return None
+        raise
     finally:
         rt.NUM_THREADS = saved_threads
     if modes == (8, 6):
@@ -244,43 +265,6 @@ def _field_error(case, halo, n):
     cw, fw = halfspace.solve(q, dom, z[lv] - z0, None, modes, halo, meas_pt=mp, footprint=fp, transfer=tr, mean_resistance=res)
     cm, cwm = c - c.mean(axis=(1, 2), keepdims=True), cw - cw.mean(axis=(1, 2), keepdims=True)
     return max(sl.relerr(f, fw, np.abs(fw).max()), sl.relerr(cm, cwm, np.abs(cwm).max()))
-
-
-def _field_ladder_one_unused(case):
-    from vf.oracles import halfspace
-
-    S0 = sl.solver()
-    nx, ny, dom = 8, 6, (200.0, 150.0)
-    dx, dy = dom[0] / nx, dom[1] / ny
-    halo = case["halo"]
-    funcs = family(case["family"], "oblique")
-    z0, zt = 0.5, 20.0
-    fp = case["footprint"]
-    q = sl.impulse(ny, nx, 2, 3)
-    mp = (5 * dx, 1 * dy) if fp else (0.0, 0.0)
-    modes = (4, 4)
-    errs, hs = [], []
-    from scipy.integrate import quad
-
-    for n in case["ns"]:
-        z = np.linspace(z0, zt, n + 1)
-        prof = tuple(np.asarray(f(z), dtype=float) + 0.0 * z for f in funcs)
-        lv = {"ascending": [n // 2, n], "descending": [n, n // 2], "rotated": [n // 2, n, n // 4]}[case["order"]]
-        _, c, f = S0(q, z, prof, dom, lv, modes=modes, halo=halo, precision="double", footprint=fp, meas_pt=mp)
-        tr = lambda kx, ky: riccati.transfer(funcs, z0, zt, z[lv], kx, ky)  # noqa
-        res = [quad(lambda t: 1.0 / float(funcs[4](t)), z0, zz, epsabs=1e-13, epsrel=1e-12)[0] for zz in z[lv]]
-        cw, fw = halfspace.solve(q, dom, z[lv] - z0, None, modes, halo, meas_pt=mp, footprint=fp, transfer=tr, mean_resistance=res)
-        e = max(sl.relerr(f, fw, np.abs(fw).max()), sl.relerr(c - c.mean(axis=(1, 2), keepdims=True), cw - cw.mean(axis=(1, 2), keepdims=True), np.abs(cw - cw.mean(axis=(1, 2), keepdims=True)).max()))
-        errs.append(e)
-        hs.append(1.0 / n)
-    v = []
-    lab = core.canon(case)
-    for k, n in enumerate(case["ns"]):
-        if not errs[k] <= 16.0 * hs[k]:
-            v.append({"sub": "field-bound", "sig": "field-bound", "msg": "n=%d: field error %.3e is %.1f x the relative layer thickness (allowed 16 x); case %s" % (n, errs[k], errs[k] / hs[k], lab)})
-        if k + 1 < len(errs) and errs[k + 1] > max(errs[k] / 2.5, 0.05 * hs[k + 1]) and errs[k + 1] >= 1e-9:
-            v.append({"sub": "field-ratio", "sig": "field-ratio", "msg": "n=%d -> %d: field error %.3e -> %.3e shrinks only %.2f x (required 2.5 x); case %s" % (n, case["ns"][k + 1], errs[k], errs[k + 1], errs[k] / errs[k + 1], lab)})
-    return {"v": v[:3], "nt": True, "n": len(case["ns"]), "obs": {"errors": ["%.3e" % e for e in errs]}}
 
 
 def run(ctx):
